@@ -12,6 +12,7 @@ import (
 	"reflect"
 	"sort"
 	"strconv"
+	"strings"
 	"time"
 
 	"github.com/echovault/sugardb/internal"
@@ -361,4 +362,25 @@ func (server *SugarDB) VerifCommandCategories(cmd []string) (string, []string) {
 		}
 	}
 	return name, cats
+}
+
+// ---- cluster (C07) ----
+
+// VerifRaftApplied / VerifRaftLast / VerifRaftState expose the raft progress of a cluster node.
+func (server *SugarDB) VerifRaftApplied() uint64 { return server.raft.VerifAppliedIndex() }
+func (server *SugarDB) VerifRaftLast() uint64    { return server.raft.VerifLastIndex() }
+func (server *SugarDB) VerifRaftState() string   { return server.raft.VerifState() }
+func (server *SugarDB) VerifRaftPeers() int      { return server.raft.VerifNumPeers() }
+func (server *SugarDB) VerifInCluster() bool     { return server.isInCluster() }
+
+// VerifCommandSync lists, per command (and "cmd|sub"), whether it is replicated through raft.
+func (server *SugarDB) VerifCommandSync() map[string]bool {
+	out := map[string]bool{}
+	for _, c := range server.commands {
+		out[strings.ToUpper(c.Command)] = c.Sync
+		for _, sc := range c.SubCommands {
+			out[strings.ToUpper(c.Command)+"|"+strings.ToUpper(sc.Command)] = sc.Sync
+		}
+	}
+	return out
 }
